@@ -156,6 +156,94 @@ theorem retry_after_failed_delete_repairs (h : List (Owner × Snapshot)) (o : Ow
       else setOwner (liveAfter (fun _ => none) h) o s) := Inv_delFail_then_retry hI o s
   exact key.kernel_bit ip i
 
+/-- **Retrying repairs ANY partial application.** A failing batch syscall may leave any part of the call's two
+batches in the table (the kernel's batch update stops at the first failing pair and keeps the prefix; the
+per-key fallback of `BpfMapBatchDelete` stops at the first hard error): after any history of completed calls,
+whatever subset `ups ⊆ update batch`, `dels ⊆ delete batch` of a failed call reached the table, the same call
+succeeding next restores "table = union over the latest snapshots". -/
+theorem retry_after_partial_failure_repairs (h : List (Owner × Snapshot)) (o : Owner) (ho : o ≠ "") (s : Snapshot)
+    (ups : List (Ip × Bitmap)) (dels : List Ip)
+    (hu : ∀ p ∈ ups, p ∈ (emitFor (runSync TK.empty h).t o s (affected (runSync TK.empty h).t o s)).ups)
+    (hd : ∀ k ∈ dels, k ∈ (emitFor (runSync TK.empty h).t o s (affected (runSync TK.empty h).t o s)).dels)
+    (ip : Ip) (i : Nat) :
+    let s0 := runSync TK.empty h
+    let s1 : TK := { s0 with K := applySome s0.K ups dels }   -- the failed call: tracker untouched
+    let s2 := (s1.syncO o s .ok).1
+    (kernelVal s2.K ip).testBit i = true ↔
+      ∃ o' s', liveAfter (fun _ => none) (h ++ [(o, s)]) o' = some s' ∧ ip ∈ s'.ips ∧ s'.bitmap.testBit i = true := by
+  intro s0 s1 s2
+  have hI := Inv_runSync h TK.empty _ Inv_empty
+  rw [liveAfter_append _ _ _ _ ho]
+  have key : Inv s2.t s2.K (setOwner (liveAfter (fun _ => none) h) o s) := by
+    show Inv (s1.syncO o s .ok).1.t (s1.syncO o s .ok).1.K _
+    rw [syncO_ok s1 o ho]
+    exact Inv_retry_after_partial hI o ho s ups dels hu hd
+  exact key.kernel_bit ip i
+
+-- non-vacuity: of the batches {8 := 2, 9 := 2} / {7} only `9 := 2` reached the table
+example :
+    let s0 := runSync TK.empty [("a", ⟨1, [7, 8]⟩)]
+    (emitFor s0.t "a" ⟨2, [8, 9]⟩ (affected s0.t "a" ⟨2, [8, 9]⟩)).ups = [(8, 2), (9, 2)] ∧
+    (emitFor s0.t "a" ⟨2, [8, 9]⟩ (affected s0.t "a" ⟨2, [8, 9]⟩)).dels = [7] ∧
+    applySome s0.K [(9, 2)] [] = [(9, 2), (8, 1), (7, 1)] ∧
+    (({ s0 with K := applySome s0.K [(9, 2)] [] } : TK).syncO "a" ⟨2, [8, 9]⟩ .ok).1.K = [(9, 2), (8, 2)] := by decide
+
+/-- **… but only an immediate retry does** (witness, code as it is): after a failed *delete* batch (update
+batch written, snapshot not applied) another owner's call in between can make the retried call compute an
+empty difference, so the table keeps the stale value: `a ↦ {x}` bits 11; `a ↦ {x}` bits 01 + `{y}` gone with a
+failing delete batch (table: x := 01); `b ↦ {x}` bits 10 (tracker still believes a has 11: nothing to send);
+retry of a's call: union 10|01 = 11 = what the tracker believes the table holds — nothing is sent and x stays
+01 although a and b are live with 01 and 10. -/
+theorem late_retry_after_failed_delete_does_not_repair :
+    let r := runSyncO TK.empty (fun _ => none)
+      [("a", ⟨0b11, [1, 2]⟩, .ok), ("a", ⟨0b01, [1]⟩, .delFail), ("b", ⟨0b10, [1]⟩, .ok), ("a", ⟨0b01, [1]⟩, .ok)]
+    kernelVal r.1.K 1 = 0b01 ∧ r.2 "a" = some ⟨0b01, [1]⟩ ∧ r.2 "b" = some ⟨0b10, [1]⟩ := by decide
+
+/-- **A batch that fits is never refused.** `domain_routing_map` holds at most `cap` (65 536) entries; the
+kernel refuses only the insertion of a NEW key into a full map. If the table size plus the size of the update
+batch does not exceed the capacity, the batch is applied completely whatever its order - the premise of every
+theorem above that "the batch syscalls succeed" is met as far as capacity is concerned. -/
+theorem capped_batch_within_room_is_complete (cap : Nat) (K : Kernel) (batch : List (Ip × Bitmap))
+    (hroom : K.length + batch.length ≤ cap) :
+    batchUpdCap cap K batch = (batch.foldl (fun K p => alInsert p.1 p.2 K) K, true) :=
+  batchUpdCap_room cap batch K hroom
+
+/-- **A refused batch leaves a prefix of itself applied** (and `syncCap` then returns before the delete batch,
+tracker untouched) - which the retry theorem above repairs. -/
+theorem capped_batch_applies_a_prefix (cap : Nat) (K : Kernel) (batch : List (Ip × Bitmap)) :
+    ∃ n, (batchUpdCap cap K batch).1 = (batch.take n).foldl (fun K p => alInsert p.1 p.2 K) K :=
+  batchUpdCap_prefix cap batch K
+
+/-- a call refused for capacity followed by the same call with room: the mirror holds again. -/
+theorem retry_after_capacity_failure_repairs (h : List (Owner × Snapshot)) (cap : Nat) (order : List Ip) (o : Owner)
+    (ho : o ≠ "") (s : Snapshot)
+    (hfail : ((runSync TK.empty h).syncCap cap order o s .ok).2 = .updFailed) (ip : Ip) (i : Nat) :
+    let s1 := ((runSync TK.empty h).syncCap cap order o s .ok).1
+    let s2 := (s1.syncO o s .ok).1
+    (kernelVal s2.K ip).testBit i = true ↔
+      ∃ o' s', liveAfter (fun _ => none) (h ++ [(o, s)]) o' = some s' ∧ ip ∈ s'.ips ∧ s'.bitmap.testBit i = true := by
+  intro s1 s2
+  have hI := Inv_runSync h TK.empty _ Inv_empty
+  rw [liveAfter_append _ _ _ _ ho]
+  have key : Inv s2.t s2.K (setOwner (liveAfter (fun _ => none) h) o s) := by
+    show Inv (s1.syncO o s .ok).1.t (s1.syncO o s .ok).1.K _
+    rw [syncO_ok s1 o ho]
+    obtain ⟨ht, n, hK⟩ := syncCap_failed_state (runSync TK.empty h) cap order o ho s hfail
+    show Inv (applySnapshot s1.t o s) (applyEmit s1.K (emitFor s1.t o s (affected s1.t o s))) _
+    rw [show s1.t = (runSync TK.empty h).t from ht, show s1.K = _ from hK]
+    have := Inv_retry_after_partial hI o ho s
+      ((reorder (emitFor (runSync TK.empty h).t o s (affected (runSync TK.empty h).t o s)).ups order).take n) []
+      (fun p hp => mem_reorder (List.mem_of_mem_take hp)) (fun k hk => by cases hk)
+    exact this
+  exact key.kernel_bit ip i
+
+-- non-vacuity: capacity 2, table {7}, the batch {8, 9} is refused after its first pair
+example :
+    let s0 := runSync TK.empty [("a", ⟨1, [7]⟩)]
+    (s0.syncCap 2 [9, 8] "b" ⟨2, [8, 9]⟩ .ok).2 = .updFailed ∧
+    (s0.syncCap 2 [9, 8] "b" ⟨2, [8, 9]⟩ .ok).1.K = [(9, 2), (7, 1)] ∧
+    (s0.syncCap 3 [9, 8] "b" ⟨2, [8, 9]⟩ .ok).2 = .done := by decide
+
 /-! ## Part 2 — the cache layer, every history of cache operations -/
 
 /-- What "a cached entry lists address `ip`" means in the statements below: some record of its answer
@@ -184,7 +272,7 @@ theorem table_mirrors_cache (cfg : Cfg) (ops : List COp) (ip : Ip) (i : Nat) :
     (kernelVal (crun (CState.init cfg) ops).tk.K ip).testBit i = true ↔
       ∃ key e, alLookup key (crun (CState.init cfg) ops).cache = some e ∧ ip ∈ ansIps e.ans ∧
         e.bitmap.testBit i = true :=
-  (CInv_run ops (CInv_init cfg)).cache_bit ip i
+  (CInv_run ops (CInv_init cfg)).cache_bit (crun_dirty ops rfl) ip i
 
 /-- **No stale or orphaned address (full strength).** Every entry of the table is non-zero and its address
 is listed by a currently cached entry with a non-zero bitmap. -/
@@ -192,19 +280,19 @@ theorem table_no_orphan (cfg : Cfg) (ops : List COp) (ip : Ip) (v : Bitmap)
     (hv : alLookup ip (crun (CState.init cfg) ops).tk.K = some v) :
     v ≠ 0 ∧ ∃ key e, alLookup key (crun (CState.init cfg) ops).cache = some e ∧ ip ∈ ansIps e.ans ∧
       e.bitmap ≠ 0 :=
-  (CInv_run ops (CInv_init cfg)).cache_no_orphan ip v hv
+  (CInv_run ops (CInv_init cfg)).cache_no_orphan (crun_dirty ops rfl) ip v hv
 
 /-- the same as an equation with the executable specification (union of the bitmaps of the cached entries
 listing the address). -/
 theorem table_eq_spec (cfg : Cfg) (ops : List COp) (ip : Ip) :
     kernelVal (crun (CState.init cfg) ops).tk.K ip = specOr (crun (CState.init cfg) ops).cache ip :=
-  (CInv_run ops (CInv_init cfg)).kernel_eq_spec ip
+  (CInv_run ops (CInv_init cfg)).kernel_eq_spec (crun_dirty ops rfl) ip
 
 /-- the executable check the driver prints as `m=` (table = specification on every address that occurs, no
 zero entry) is always true: a `m=0` line from the driver is impossible. -/
 theorem driver_mirror_flag (cfg : Cfg) (ops : List COp) :
     mirrorOk (crun (CState.init cfg) ops).cache (crun (CState.init cfg) ops).tk.K = true :=
-  (CInv_run ops (CInv_init cfg)).mirrorOk_true
+  (CInv_run ops (CInv_init cfg)).mirrorOk_true (crun_dirty ops rfl)
 
 -- non-vacuity: two scopes of one name plus another name share an address; one expires on lookup, one is
 -- replaced with another address; a refresh queued for a since-replaced entry is dropped by the worker.
@@ -230,50 +318,133 @@ theorem table_mirrors_tracker (cfg : Cfg) (ops : List COp) (ip : Ip) (i : Nat) :
         s.bitmap.testBit i = true :=
   (CInv_run ops (CInv_init cfg)).tracker_bit ip i
 
-/-! ### a put whose synchronous publish fails (failing batch syscall: environment, not a cache history) -/
+/-! ### failing batch syscalls inside cache operations (environment, not a cache history)
+
+`crunP` runs a history in which every operation comes with a *plan*: what the batch syscalls of that
+operation's tracker calls do, per cache key (`ok`, the update batch fails, the delete batch fails). The code
+stores / removes the cache entry before the callback runs and only logs (or returns) the callback's error, so
+after a failure cache and table disagree. `dirty` (ghost) is the set of keys whose latest tracker call failed. -/
+
+/-- the headline machine is the plan machine with working syscalls. -/
+theorem crun_is_crunP_ok (σ : CState) (ops : List COp) : crun σ ops = crunP σ (ops.map fun o => (Plan.ok, o)) := by
+  unfold crun crunP
+  rw [List.foldl_map]
+  rfl
 
 /-- **A failed publish breaks the mirror** (code as it is: the entry is stored before the callback runs and
-stays cached when the callback fails): after `putFail k {1.2.3.4…}` the cache lists the address, the table
-does not. The headline above therefore assumes that the batch syscalls of cache operations succeed. -/
+stays cached when the callback fails): after a put whose update batch failed the cache lists the address, the
+table does not. The headline above therefore assumes that the batch syscalls of cache operations succeed. -/
 theorem failed_put_sync_breaks_mirror :
-    ¬ (∀ (cfg : Cfg) (ops : List FOp) (ip : Ip) (i : Nat),
-        (kernelVal (crunF (CState.init cfg) ops).tk.K ip).testBit i = true ↔
-          ∃ key e, alLookup key (crunF (CState.init cfg) ops).cache = some e ∧ ip ∈ ansIps e.ans ∧
+    ¬ (∀ (cfg : Cfg) (ops : List (Plan × COp)) (ip : Ip) (i : Nat),
+        (kernelVal (crunP (CState.init cfg) ops).tk.K ip).testBit i = true ↔
+          ∃ key e, alLookup key (crunP (CState.init cfg) ops).cache = some e ∧ ip ∈ ansIps e.ans ∧
             e.bitmap.testBit i = true) := by
   intro h
-  have := h ⟨false, 0, 0⟩ [.putFail "k" "k." 1 100 none 1 [.a4 1]] (mapped4 1) 0
-  have hk : (kernelVal (crunF (CState.init ⟨false, 0, 0⟩) [.putFail "k" "k." 1 100 none 1 [.a4 1]]).tk.K
-      (mapped4 1)).testBit 0 = false := by decide
-  have hc : ∃ key e, alLookup key (crunF (CState.init ⟨false, 0, 0⟩)
-      [.putFail "k" "k." 1 100 none 1 [.a4 1]]).cache = some e ∧ mapped4 1 ∈ ansIps e.ans ∧
+  have := h ⟨false, 0, 0⟩ [(fun _ => .updFail, .put "k" "k." 1 100 none 1 [.a4 1])] (mapped4 1) 0
+  have hk : (kernelVal (crunP (CState.init ⟨false, 0, 0⟩)
+      [(fun _ => .updFail, .put "k" "k." 1 100 none 1 [.a4 1])]).tk.K (mapped4 1)).testBit 0 = false := by decide
+  have hc : ∃ key e, alLookup key (crunP (CState.init ⟨false, 0, 0⟩)
+      [(fun _ => .updFail, .put "k" "k." 1 100 none 1 [.a4 1])]).cache = some e ∧ mapped4 1 ∈ ansIps e.ans ∧
         e.bitmap.testBit 0 = true := ⟨"k", ⟨1, 1, [.a4 1], 100 * sec, 100 * sec, 0, 0⟩, by decide, by decide, by decide⟩
   rw [this.mpr hc] at hk
   cases hk
 
-/-- **… and the refresh worker repairs it.** After any history of cache operations that leaves the refresh
-queue empty, a put whose publish failed, the next lookup of that key (which queues a refresh because the
-entry was never synced) and the worker's run restore the headline. -/
-theorem refresh_after_failed_put_repairs (cfg : Cfg) (ops : List COp) (key fqdn : String) (qtype ttl : Nat)
+/-- **Whatever fails, table and tracker stay consistent** (update batches may fail in any operation of any
+history: puts, removals, janitor runs, the refresh worker, the restore of a reload; hypothesis: no *delete*
+batch fails after its update batch was written): the table is exactly the union over the tracker's owner
+snapshots. -/
+theorem table_mirrors_tracker_under_failures (cfg : Cfg) (ops : List (Plan × COp))
+    (hnd : ∀ p ∈ ops, ∀ o, p.1 o ≠ Outcome.delFail) (ip : Ip) (i : Nat) :
+    (kernelVal (crunP (CState.init cfg) ops).tk.K ip).testBit i = true ↔
+      ∃ o s, alLookup o (crunP (CState.init cfg) ops).tk.t.owners = some s ∧ ip ∈ s.ips ∧
+        s.bitmap.testBit i = true :=
+  (CInv_runP ops (CInv_init cfg) hnd).tracker_bit ip i
+
+/-- **… and the tracker is the cache on every key whose latest call did not fail.** -/
+theorem tracker_matches_cache_on_clean_keys (cfg : Cfg) (ops : List (Plan × COp))
+    (hnd : ∀ p ∈ ops, ∀ o, p.1 o ≠ Outcome.delFail) (key : String)
+    (hclean : key ∉ (crunP (CState.init cfg) ops).dirty) :
+    alLookup key (crunP (CState.init cfg) ops).tk.t.owners =
+      (if key = "" then none else
+        match alLookup key (crunP (CState.init cfg) ops).cache with
+        | some e => if e.snap.effective then some e.snap else none
+        | none => none) :=
+  (CInv_runP ops (CInv_init cfg) hnd).clean key hclean
+
+/-- **The damage of failed calls is confined to the addresses of the failed keys.** After any history with
+failing update batches anywhere, an address that no dirty key lists (neither in the snapshot the tracker
+still holds for it nor in the entry cached under it) reads exactly the union over the cached entries that
+list it. In particular (next theorem) the headline holds again as soon as no key is dirty. -/
+theorem clean_addresses_mirror_cache (cfg : Cfg) (ops : List (Plan × COp))
+    (hnd : ∀ p ∈ ops, ∀ o, p.1 o ≠ Outcome.delFail) (ip : Ip)
+    (hpub : ∀ k ∈ (crunP (CState.init cfg) ops).dirty, ∀ s,
+      alLookup k (crunP (CState.init cfg) ops).tk.t.owners = some s → ip ∉ s.ips)
+    (hcache : ∀ k ∈ (crunP (CState.init cfg) ops).dirty, ∀ e,
+      alLookup k (crunP (CState.init cfg) ops).cache = some e → ip ∉ ansIps e.ans) (i : Nat) :
+    (kernelVal (crunP (CState.init cfg) ops).tk.K ip).testBit i = true ↔
+      ∃ key e, alLookup key (crunP (CState.init cfg) ops).cache = some e ∧ ip ∈ ansIps e.ans ∧
+        e.bitmap.testBit i = true :=
+  (CInv_runP ops (CInv_init cfg) hnd).clean_address_bit ip hpub hcache i
+
+/-- **Every failed key re-published ⇒ the headline holds again** (a later put, removal, refresh by the worker
+or reload of that key whose syscalls work clears it from `dirty`). -/
+theorem table_mirrors_cache_when_no_key_is_dirty (cfg : Cfg) (ops : List (Plan × COp))
+    (hnd : ∀ p ∈ ops, ∀ o, p.1 o ≠ Outcome.delFail)
+    (hclean : (crunP (CState.init cfg) ops).dirty = []) (ip : Ip) (i : Nat) :
+    (kernelVal (crunP (CState.init cfg) ops).tk.K ip).testBit i = true ↔
+      ∃ key e, alLookup key (crunP (CState.init cfg) ops).cache = some e ∧ ip ∈ ansIps e.ans ∧
+        e.bitmap.testBit i = true :=
+  (CInv_runP ops (CInv_init cfg) hnd).cache_bit hclean ip i
+
+-- non-vacuity: a put and a janitor eviction whose update batches fail, another key untouched; then the refresh
+-- worker re-publishes the failed put: no key is dirty any more
+example :
+    let ops : List (Plan × COp) := [(Plan.ok, .put "a" "a." 1 100 none 0b01 [.a4 1, .a4 2]),
+      (Plan.ok, .put "b" "b." 1 100 none 0b10 [.a4 2]),
+      (fun _ => .updFail, .put "c" "c." 1 100 none 0b100 [.a4 2, .a4 3]),
+      (fun _ => .updFail, .jan ["a"])]
+    let σ := crunP (CState.init ⟨false, 0, 0⟩) ops
+    σ.dirty = ["a", "c"] ∧ σ.cache.length = 2 ∧ σ.tk.K = [(mapped4 2, 0b11), (mapped4 1, 0b01)] ∧
+    (crunP σ [(Plan.ok, .look "c" false true), (Plan.ok, .work), (Plan.ok, .put "a" "a." 1 100 none 0 [])]).dirty = [] ∧
+    (crunP σ [(Plan.ok, .look "c" false true), (Plan.ok, .work), (Plan.ok, .put "a" "a." 1 100 none 0 [])]).tk.K =
+      [(mapped4 2, 0b110), (mapped4 3, 0b100)] := by decide
+
+/-- **… in particular the refresh worker repairs a failed put.** After any history (with failing update
+batches anywhere) that leaves no key dirty and the refresh queue empty, a put whose publish failed, the next
+lookup of that key (which queues a refresh because the entry was never synced) and the worker's run restore
+the headline. -/
+theorem refresh_after_failed_put_repairs (cfg : Cfg) (ops : List (Plan × COp))
+    (hnd : ∀ p ∈ ops, ∀ o, p.1 o ≠ Outcome.delFail) (key fqdn : String) (qtype ttl : Nat)
     (fixedTtl : Option Nat) (bitmap : Bitmap) (ans : List Ans)
-    (hq : (crun (CState.init cfg) ops).pending = []) (ip : Ip) (i : Nat) :
-    let σ := cstep (cstep (cstepF (crun (CState.init cfg) ops)
-      (.putFail key fqdn qtype ttl fixedTtl bitmap ans)) (.look (effKey key fqdn qtype) false true)) .work
+    (hd : (crunP (CState.init cfg) ops).dirty = [])
+    (hq : (crunP (CState.init cfg) ops).pending = []) (ip : Ip) (i : Nat) :
+    let σ := crunP (crunP (CState.init cfg) ops) [(fun _ => .updFail, .put key fqdn qtype ttl fixedTtl bitmap ans),
+      (Plan.ok, .look (effKey key fqdn qtype) false true), (Plan.ok, .work)]
     (kernelVal σ.tk.K ip).testBit i = true ↔
       ∃ k e, alLookup k σ.cache = some e ∧ ip ∈ ansIps e.ans ∧ e.bitmap.testBit i = true := by
   intro σ
-  have h0 := CInv_run ops (CInv_init cfg)
-  have hσ : CInv σ := by
-    show CInv (cstep (cstep (cstepF _ _) _) .work)
-    unfold cstepF
-    by_cases hk : effKey key fqdn qtype = ""
-    · simp only [hk, if_true]
-      exact CInv_step (CInv_step h0 _) _
-    · simp only [hk, if_false]
-      rw [failed_put_then_refresh_eq_store _ hq]
-      exact CInv_store h0 _ hk _
-  exact hσ.cache_bit ip i
+  have h0 := CInv_runP ops (CInv_init cfg) hnd
+  have hσ : CInv σ := CInv_runP _ h0 (by
+    intro p hp o
+    simp only [List.mem_cons, List.not_mem_nil, or_false] at hp
+    rcases hp with hp | hp | hp <;> subst hp <;> simp [Plan.ok])
+  exact hσ.cache_bit (failed_put_then_refresh_dirty _ hd hq key fqdn qtype ttl fixedTtl bitmap ans) ip i
 
-example : (crun (CState.init ⟨false, 0, 0⟩) [.put "a" "a." 1 100 none 1 [.a4 1]]).pending = [] := by decide
+example : (crunP (CState.init ⟨false, 0, 0⟩) [(Plan.ok, .put "a" "a." 1 100 none 1 [.a4 1])]).pending = [] ∧
+    (crunP (CState.init ⟨false, 0, 0⟩) [(Plan.ok, .put "a" "a." 1 100 none 1 [.a4 1])]).dirty = [] := by decide
+
+/-- **A failed removal leaves an orphan that only the same key can clear** (witness; code as it is: the entry
+has left the cache before the delete callback runs, its error is only logged, and no later operation on
+*other* keys re-syncs that owner): `put k {1.2.3.4…}; del k` with a failing batch leaves the address in the
+table although nothing is cached; a later `put k …` + `del k` with working syscalls clears it. -/
+theorem failed_removal_leaves_orphan :
+    let σ := crunP (CState.init ⟨false, 0, 0⟩)
+      [(Plan.ok, .put "k" "k." 1 100 none 1 [.a4 1]), (fun _ => .delFail, .del "k")]
+    σ.cache = [] ∧ σ.tk.K = [(mapped4 1, 1)] ∧ σ.dirty = ["k"] ∧
+    (crunP σ [(Plan.ok, .put "x" "x." 1 1 none 4 [.a4 1]), (Plan.ok, .sleep 5), (Plan.ok, .jan ["x"]), (Plan.ok, .del "k")]).tk.K
+      = [(mapped4 1, 1)] ∧
+    (crunP σ [(Plan.ok, .put "k" "k." 1 100 none 1 [.a4 7]), (Plan.ok, .del "k")]).tk.K = [] := by
+  decide
 
 /-- **Revert witness.** With the worker as it was before the fix (`cstepUnguarded`: a queued refresh is
 applied even when its entry was replaced or removed meanwhile) the headline is false: insert, wait 60 s,
@@ -299,5 +470,74 @@ theorem unguarded_worker_breaks_mirror :
 -- the same history on the fixed machine: the task is dropped, the table is empty
 example : (crun (CState.init ⟨false, 0, 0⟩)
     [.put "k" "k." 1 100 none 1 [.a4 1], .sleep (60 * sec), .look "k" false true, .del "k", .work]).tk.K = [] := by decide
+
+/-! ## Part 3 — `syncOwner` under concurrency: every interleaving of the mutex and the two batch syscalls
+
+Any number of goroutines, each with any program of `syncOwner` calls; a schedule picks who moves next; a move
+is one of: take `t.mu` (possible only when it is free) and compute the batches, send the update batch, send
+the delete batch, apply the snapshot and release `t.mu`. -/
+
+/-- **Whenever the mutex is free the table is the union** over the latest snapshots of the calls committed
+so far (in commit order), for every set of programs and every schedule. -/
+theorem mutex_serialises_syncs (progs : List (List (Owner × Snapshot))) (sched : List Nat)
+    (hfree : (srun (Sys.init progs) sched).lock = none) (ip : Ip) (i : Nat) :
+    (kernelVal (srun (Sys.init progs) sched).K ip).testBit i = true ↔
+      ∃ o s, liveAfter (fun _ => none) (srun (Sys.init progs) sched).done o = some s ∧ ip ∈ s.ips ∧
+        s.bitmap.testBit i = true := by
+  have h := SInv_srun sched (SInv_init progs)
+  simp only [SInv, hfree] at h
+  exact h.kernel_bit ip i
+
+/-- … no orphan either, and every committed call was issued by one of the goroutines. -/
+theorem mutex_serialises_syncs_no_orphan (progs : List (List (Owner × Snapshot))) (sched : List Nat)
+    (hfree : (srun (Sys.init progs) sched).lock = none) :
+    (∀ ip v, alLookup ip (srun (Sys.init progs) sched).K = some v →
+      v ≠ 0 ∧ ∃ o s, liveAfter (fun _ => none) (srun (Sys.init progs) sched).done o = some s ∧ ip ∈ s.ips ∧ s.bitmap ≠ 0) ∧
+    (∀ c ∈ (srun (Sys.init progs) sched).done, ∃ prog ∈ progs, c ∈ prog) := by
+  have h := SInv_srun sched (SInv_init progs)
+  simp only [SInv, hfree] at h
+  exact ⟨fun ip v hv => h.no_orphan ip v hv, (SFrom_srun sched (SFrom_init progs)).1⟩
+
+/-- **While a call holds the mutex** the table is that union plus exactly the part of the holder's own batches
+it has sent so far; nobody else has moved (`tstep` of any other goroutine is the identity). -/
+theorem table_during_a_call (progs : List (List (Owner × Snapshot))) (sched : List Nat) (h : Hold)
+    (hheld : (srun (Sys.init progs) sched).lock = some h) :
+    let σ := srun (Sys.init progs) sched
+    h.o ≠ "" ∧ (∀ j, j ≠ h.tid → tstep σ j = σ) ∧
+    ∃ K0, (∀ ip i, (kernelVal K0 ip).testBit i = true ↔
+        ∃ o s, liveAfter (fun _ => none) σ.done o = some s ∧ ip ∈ s.ips ∧ s.bitmap.testBit i = true) ∧
+      σ.K = (match h.stage with
+        | .locked => K0
+        | .updSent => (emitFor σ.t h.o h.s (affected σ.t h.o h.s)).ups.foldl (fun K p => alInsert p.1 p.2 K) K0
+        | .delSent => applyEmit K0 (emitFor σ.t h.o h.s (affected σ.t h.o h.s))) := by
+  intro σ
+  have hS := SInv_srun sched (SInv_init progs)
+  simp only [SInv, hheld] at hS
+  obtain ⟨ho, K0, hI, hK⟩ := hS
+  refine ⟨ho, ?_, K0, fun ip i => hI.kernel_bit ip i, hK⟩
+  intro j hj
+  show tstep (srun (Sys.init progs) sched) j = _
+  unfold tstep
+  simp only [hheld]
+  rw [if_pos (fun e => hj e.symm)]
+
+-- non-vacuity: two goroutines sharing address 7; goroutine 1 tries to move while goroutine 0 holds the mutex
+example :
+    let progs := [[("a", (⟨0b01, [7, 8]⟩ : Snapshot)), ("a", ⟨0b01, [8]⟩)], [("b", ⟨0b10, [7]⟩)]]
+    (srun (Sys.init progs) [0, 1, 0, 1]).lock.map (·.stage) = some .updSent ∧
+    (srun (Sys.init progs) [0, 1, 0, 1]).K = [(8, 0b01), (7, 0b01)] ∧
+    (srun (Sys.init progs) [0, 1, 0, 1, 0, 0, 1, 1, 1, 1, 0, 0, 0, 0]).finished = true ∧
+    (srun (Sys.init progs) [0, 1, 0, 1, 0, 0, 1, 1, 1, 1, 0, 0, 0, 0]).K = [(7, 0b10), (8, 0b01)] ∧
+    (srun (Sys.init progs) [0, 1, 0, 1, 0, 0, 1, 1, 1, 1, 0, 0, 0, 0]).done =
+      [("a", ⟨0b01, [7, 8]⟩), ("b", ⟨0b10, [7]⟩), ("a", ⟨0b01, [8]⟩)] := by decide
+
+/-- **Negative witness: releasing the mutex before the syscalls breaks it.** With the snapshot applied and
+`t.mu` released before the batches are sent (`tstepE`), two goroutines syncing different owners of one address
+can have their writes land in the opposite order of their diffs: a ↦ {7} bits 01 computes "7 := 01", b ↦ {7}
+bits 10 computes "7 := 11" and writes it, then a's older write lands: the table reads 01 although b is live. -/
+theorem early_unlock_breaks_mirror :
+    let σ := srunE ⟨Tracker.empty, [], [], [[("a", ⟨0b01, [7]⟩)], [("b", ⟨0b10, [7]⟩)]]⟩ [0, 1, 1, 0]
+    σ.inflight.isEmpty = true ∧ σ.todo.all (·.isEmpty) = true ∧ kernelVal σ.K 7 = 0b01 ∧
+    alLookup "b" σ.t.owners = some ⟨0b10, [7]⟩ := by decide
 
 end DaeVerif.C10.Props
